@@ -44,7 +44,7 @@ def cases_for(rng, n, ctx):
     tmp = tlc.scratch('verif.c13.')
     try:
         for i in range(n):
-            N = int(rng.choice([5, 6, 7, 9, 12, 20, 33])) if i % 6 else int(rng.integers(50, 501 if not ctx.quick else 160))
+            N = int(rng.choice([5, 6, 7, 9, 12, 20, 33])) if i % 6 else int(rng.integers(50, 501 if not ctx.quick else 160)) if i % 12 else int(rng.integers(260, 330))
             cls = str(rng.choice(gen.IDL_CLASSES))
             idl = gen.make_idl(rng, cls, N)
             name = str(rng.choice(['ens', 'A|r1', 'long name|7']))
@@ -121,6 +121,14 @@ def cases_for(rng, n, ctx):
                     t1, t2, t3 = (np.atleast_2d(np.loadtxt(f, dtype=int)).tolist() for f in (f1, f2, f3))
                     cases.append({'id': 'bs-' + tag, 'ev': 'boot_seed', 'obs': po, 'first': _seq(first), 'second': _seq(second), 'other': _seq(oth),
                                   'sum': _seq(sm), 'table1': t1, 'table2': t2, 'table_other': t3})
+            if N >= 260 and i % 2 == 0:
+                # any table at all: rows that pick one configuration for (almost) the whole sample
+                a, b = int(rng.integers(0, N)), int(rng.integers(0, N))
+                table = np.stack([np.full(N, a), np.concatenate((np.full(257, b), rng.integers(0, N, size=N - 257))), rng.integers(0, N, size=N)])
+                bs = _call(lambda: o.export_bootstrap(samples=3, random_numbers=table))
+                tl = [[int(v) for v in row] for row in table]
+                cases.append({'id': 'bx-%s-heavy' % tag, 'ev': 'boot_export', 'obs': po, 'table': tl, 'boots': _seq(bs)} if not isinstance(bs, Exception)
+                             else {'id': 'bx-%s-heavy' % tag, 'ev': 'boot_import', 'obs': po, 'table': tl, 'res': _res(bs)})
             if len(ctx.samples) < 4:
                 ctx.sample({'id': tag, 'N': N, 'idl': str(idl)[:60], 'data_kind': kind, 'jack_head': [float(v) for v in jk[:3]]})
     finally:
